@@ -196,8 +196,8 @@ func c11CheckData(tree *ObjectTree, o *Object, d *amlData, what string) error {
 		if err := c11CheckConst(args[0], amlBufLenKind(d.V), d.V, what+" buffer size"); err != nil {
 			return err
 		}
-		if got, ok := args[1].value.([]byte); args[1].opcode != pOpIntByteList || !ok || !bytes.Equal(got, d.S) {
-			return fmt.Errorf("%s: buffer bytes %v, program encodes %v", what, args[1].value, d.S)
+		if got, ok := args[1].value.([]byte); args[1].opcode != pOpIntByteList || !ok || !bytes.Equal(got, d.bytes()) {
+			return fmt.Errorf("%s: buffer initialiser (%d bytes) differs from the %d bytes the program encodes", what, len(got), len(d.bytes()))
 		}
 	case "package":
 		if o.opcode != pOpPackage {
@@ -442,7 +442,7 @@ func c11CheckExpr(tree *ObjectTree, o *Object, e *amlExpr, paths map[uint32]stri
 
 type c11Stats struct {
 	scopeDirectives, relocated, callsWithArgs, forwardCalls, nestedCalls, nonMinimalPkg, deferred int
-	tables                                                                                     int
+	tables, hugePkg                                                                            int
 }
 
 func c11Run(c c11Case) (fail *vlib.Failure, errLog string) {
